@@ -13,7 +13,7 @@ def units(tier):
     u = Unit('leafnum', 'C01', 'contracts/common/leafnum.cpp', {'hc.inc': L.hc_pieces(), 'leaf.inc': L.leaf_pieces()},
              ents, route='F', trusted=L.TRUSTED,
              assumptions=["composite classes (Add, Mul, Pow, functions, sets, polynomials, matrices) are NOT under contract in this unit"])
-    return [u, L.composite_unit('C01', Unit, Entry), M.mpoly_unit('C01')]
+    return [u, L.composite_unit('C01', Unit, Entry, tier), M.mpoly_unit('C01')]
 
 def replay_args(obl, inputs, res):
     keep = ('A.', 'B.', 'C.', 'ka', 'kb', 'kc', 'pb_is_a')
